@@ -449,8 +449,20 @@ func (c15pcap) Gen(rng *rand.Rand, tier string) []Case {
 		}
 		// 4. every single split point and an injected error at every position of small files
 		for i := 0; i < 2*mult; i++ {
-			f := gen(format, 120)
-			if i == 0 && len(f.fields) > 7 { // one corrupted file too
+			f := gen(format, 160)
+			for try := 0; try < 200; try++ { // at least two records that carry data
+				n := 0
+				for _, c := range f.caplens {
+					if c > 0 {
+						n++
+					}
+				}
+				if n >= 2 {
+					break
+				}
+				f = gen(format, 160)
+			}
+			if i%2 == 1 && len(f.fields) > 7 { // a corrupted file too
 				f = f.set(f.fields[len(f.fields)-2], 0xffffffff)
 			}
 			for k := 0; k <= len(f.data); k++ {
